@@ -97,7 +97,7 @@ def _history(r, length, must=None):
     return [gen.history_op(r, n) for n in ops]
 
 
-def _histories(seed, tid, n, k0):
+def _histories(seed, tid, n, k0, target):
     """n non-empty histories for target number k0; every alphabet op appears (rotating) as a singleton or in the long one."""
     r = common.rng(PID, seed, "hist", tid)
     names = list(gen.HISTORY_OPS)
@@ -109,6 +109,8 @@ def _histories(seed, tid, n, k0):
     out.append(_history(r, 1, must=[names[(k0 * 3) % len(names)]]))
     # 3: the ops that leave state behind, in a row
     out.append(_history(r, 4, must=["rw_setfail", "rw_check_raise", "pat_raise", "eval_raise"]))
+    # 4: other instances of what the target itself exercises (same rule / pass objects)
+    out.append(gen.sibling_history(r, target))
     while len(out) < n:
         out.append(_history(r, r.choice([2, 3, 5, 8]), must=[names[(k0 + len(out) * 5) % len(names)]]))
     return out[:n]
@@ -137,7 +139,7 @@ def cases(tier, seed):
                 seeds = ["0", a, b] if a != b else ["0", a, others[(k0 + 2) % 3]]
             else:
                 seeds = ["0"] + others
-            hists = [[]] + _histories(seed, tid, nhist, k0)
+            hists = [[]] + _histories(seed, tid, nhist, k0, target)
             if tier == "quick":
                 plan = [(hi, s) for hi in range(len(hists)) for s in seeds]
             else:
@@ -350,11 +352,11 @@ def classify(api, wa, wb):
         ma, mb = _load(wa["blob"]), _load(wb["blob"])
     except Exception:
         return ["unclassified"]
+    if ma == mb:
+        pa, pb = wa.get("sha_parts") or {}, wb.get("sha_parts") or {}
+        diff = sorted(k for k in set(pa) | set(pb) if pa.get(k) != pb.get(k))
+        return ["part:" + "+".join(diff)] if diff else ["bytes_only"]
     if api == "script":
-        if ma == mb:
-            pa, pb = wa.get("sha_parts") or {}, wb.get("sha_parts") or {}
-            diff = sorted(k for k in set(pa) | set(pb) if pa.get(k) != pb.get(k))
-            return ["part:" + "+".join(diff)] if diff else ["bytes_only"]
         ms = sorted(set(script_mechanisms(ma.graph, mb.graph)))
         return ms or ["other:" + first_diff_path(ma, mb)]
     return ["path=" + first_diff_path(ma, mb)]
